@@ -703,7 +703,7 @@ def rule_context_chain_graph(ck, ix):
     g = ix.func(CO, "ContextChain.graph")
     ck.analysed(g)
     src = norm(g.node)
-    ck.check("self._graph is None" in src and "for " in src and "in self" in src, "G-PROV", "ContextChain.graph|built-from-all-rules", g.loc(),
+    ck.check(("self._graph is None" in src or "self._graph is not None" in src) and any(isinstance(f_, ast.For) and norm(f_.iter) == "self" for f_ in walk_local(g.node)), "G-PROV", "ContextChain.graph|built-from-all-rules", g.loc(),
              "graph built lazily from every (src, dst) rule in the chain", "ContextChain.graph is not built from the chain's rules")
     adds = [c for c in walk_local(g.node) if isinstance(c, ast.Call) and call_name(c) == "add"]
     fors = [f for f in walk_local(g.node) if isinstance(f, ast.For)]
@@ -712,7 +712,7 @@ def rule_context_chain_graph(ck, ix):
             a, b = norm(f.target.elts[0]), norm(f.target.elts[1])
             for c in [c for c in ast.walk(f) if isinstance(c, ast.Call) and call_name(c) == "add"]:
                 sub = c.func.value
-                ok = isinstance(sub, ast.Subscript) and norm(sub.slice) == a and norm(c.args[0]) == b
+                ok = isinstance(sub, ast.Subscript) and norm(sub.slice) == a and norm(c.args[0]) == b and (norm(sub.value) == "self._graph" or "self._graph" in {norm(t_) for a_ in walk_local(g.node) if isinstance(a_, ast.Assign) and any(norm(t2) == norm(sub.value) for t2 in a_.targets) for t_ in a_.targets})
                 ck.check(ok, "G-PROV", "ContextChain.graph|edge-direction", g.loc(c), "edge src -> dst",
                          f"`{norm(c)}` does not add the edge {a} -> {b} (direction reversed?)")
     # twin bookkeeping of contexts and maps
@@ -720,15 +720,17 @@ def rule_context_chain_graph(ck, ix):
     ck.analysed(ins)
     asg = {dotted(t): a.value for a in walk_local(ins.node) if isinstance(a, ast.Assign) for t in a.targets if dotted(t)}
     c, mp = asg.get("self.contexts"), asg.get("self.maps")
-    okc = c is not None and isinstance(c, ast.BinOp) and isinstance(c.op, ast.Add) and "reversed(contexts)" in norm(c.left) and norm(c.right) == "self.contexts"
-    okm = mp is not None and isinstance(mp, ast.BinOp) and isinstance(mp.op, ast.Add) and "reversed(contexts)" in norm(mp.left) and "relation_to_context" in norm(mp.left) and norm(mp.right) == "self.maps"
+    from . import shape as _shm
+    rev = lambda e: norm(_shm.resolve(e, ins.node)).replace("contexts[::-1]", "reversed(contexts)")
+    okc = c is not None and isinstance(c, ast.BinOp) and isinstance(c.op, ast.Add) and "reversed(contexts)" in rev(c.left) and norm(c.right) == "self.contexts"
+    okm = mp is not None and isinstance(mp, ast.BinOp) and isinstance(mp.op, ast.Add) and "reversed(contexts)" in rev(mp.left) and "relation_to_context" in norm(mp.left) and norm(mp.right) == "self.maps"
     ck.check(okc and okm, "G-TWIN", "ContextChain.insert_contexts|contexts-and-maps-prepended-reversed", ins.loc(),
              "contexts and maps are both prepended in reversed order (newest first)",
              "insert_contexts does not prepend reversed(contexts) to both self.contexts and self.maps: precedence/removal order broken")
     rem = ix.func(CO, "ContextChain.remove_contexts")
     ck.analysed(rem)
-    dels = [d for d in walk_local(rem.node) if isinstance(d, ast.Delete)]
-    tg = sorted(norm(t) for d in dels for t in d.targets)
+    # what is deleted from which list: `del self.contexts[:n]; del self.maps[:n]` or a loop over both lists
+    tg = sorted({f"{p_}{norm(nd.targets[0])[norm(nd.targets[0]).index('['):]}" for (p_, k_, nd) in writes_in(rem.node) if k_ == "item-del" and p_ in ("self.contexts", "self.maps")})
     ck.check(tg == ["self.contexts[:n]", "self.maps[:n]"], "G-TWIN", "ContextChain.remove_contexts|contexts-and-maps-truncated-alike", rem.loc(),
              "the first n entries are removed from both lists", f"remove_contexts deletes {tg}: contexts and maps are not truncated alike")
 
